@@ -34,6 +34,12 @@ def random_chain(rnd, n_elems, *, want_selflock=None, with_current=None, stress=
         imax = sig(rnd.uniform(0.2, 10))
         motor['i0'] = sig(float(imax) * rnd.uniform(0.01, 0.3)) if rnd.random() < 0.9 else F(0)
         motor['imax'] = imax
+    elif rnd.random() < 0.3:
+        # only ONE of the two current data (legal; the current is then not computable and must not be advertised)
+        if rnd.random() < 0.5:
+            motor['imax'] = sig(rnd.uniform(0.2, 10))
+        else:
+            motor['i0'] = sig(rnd.uniform(0.01, 1))
     elems = [motor]
     has_worm = False
     while len(elems) < n_elems:
@@ -264,7 +270,7 @@ def random_rules(rnd, elems, dt, n, kind=None):
     """0..4 rules of the four built-in kinds (+ scripted harness rules) with arbitrary windows"""
     T = float(dt) * n
     N = len(elems)
-    has_cur = elems[0]['i0'] is not None
+    has_cur = elems[0]['i0'] is not None and elems[0]['imax'] is not None
     w_out = float(elems[0]['w0']) / float(ratio_prod(elems))
     theta_T = w_out * T * 0.5                       # rough angle reached by the output
     rules = []
@@ -296,7 +302,7 @@ def random_rules(rnd, elems, dt, n, kind=None):
 
 def random_stop(rnd, elems, dt, n):
     N = len(elems)
-    has_cur = elems[0]['i0'] is not None
+    has_cur = elems[0]['i0'] is not None and elems[0]['imax'] is not None
     s = rnd.choice(['enc', 'tach', 'amp' if has_cur else 'tach'])
     el = 0 if s == 'amp' else rnd.randrange(N)
     rp_el = float(ratio_prod(elems[el:]))
@@ -330,6 +336,8 @@ def random_instance(rnd, family, stable=False):
         load['c1'] = abs(load['c1'])
     dt = pick_dt(rnd, elems, extra_damping=float(load['c1']) if stable else 0.0)
     inst = {'elems': elems, 'load': load, 'ctrls': [], 'stops': []}
+    if rnd.random() < 0.3:
+        inst['numpy'] = True                   # the load function (and a stop threshold) hold numpy scalars, as in the documentation's examples
     n1 = rnd.randint(3, 30)
     w_out = float(elems[0]['w0']) / float(ratio_prod(elems))
     init_spd = rnd.choice([F(0), F(0), sig(w_out * rnd.uniform(-1.2, 1.2))])
